@@ -58,7 +58,9 @@ SENSITIVE = ["i16", "i-255", "i0", "i9223372036854775807", "i-922337203685477580
 def parse_case(case):
     """-> (kind, format text or None (joined formats for seq), list of (chunk kind, [args as wire words]))"""
     w = case.split()
-    if w[0] in ("fmt", "seq"):
+    if w[0] == "os":
+        w = ["os"] + w[4:]
+    if w[0] in ("fmt", "seq", "os"):
         ops, fs, newf = [], [], True
         for o in w[1:]:
             if o == "/":
@@ -68,7 +70,7 @@ def parse_case(case):
             else:
                 body = o[2:]
                 ops.append((o[0], [] if body == "." else body.split(",")))
-        return w[0], (fs[0] if w[0] == "fmt" else " ".join(fs)), ops
+        return w[0], (fs[0] if w[0] != "seq" else " ".join(fs)), ops
     return "exc", None, [("e", w[1:])]
 
 class C08(Check):
@@ -81,7 +83,7 @@ class C08(Check):
     technique = ("Coq proof over an executable model of formatter::str()/operator%/args(...) and make_string "
                  "(loop invariant relating the regex-iterator loop to the split-based formula; reuse of the proved string layer of C17) "
                  "+ extraction-based differential test against the C++")
-    level_text = ("Twenty-one theorems proved in Coq for ALL format strings (byte lists) and ALL argument lists over a Gallina model that "
+    level_text = ("Twenty-seven theorems proved in Coq for ALL format strings (byte lists) and ALL argument lists over a Gallina model that "
                   "follows formatter::str() statement by statement (regex iterator = next occurrence of '{}' in the format after the previous "
                   "match): the loop equals 'pieces of split \"{}\" fmt interleaved with the arguments' exactly when |args| = number of "
                   "left-to-right non-overlapping '{}' and raises otherwise (less / more), the pieces glue back to the format and contain no "
@@ -90,7 +92,9 @@ class C08(Check):
                   "argument list in the order written; every argument is rendered on its own (marker i receives render(argument i), a function "
                   "of that argument alone: independent of neighbouring arguments — including user types and manipulators that leave "
                   "hex/fixed/precision/fill/boolalpha on their stream — and of formatters used earlier: format_seq), a manipulator passed as "
-                  "an argument renders as the empty text; the exception message is the concatenation of the rendered arguments (for "
+                  "an argument renders as the empty text; operator<< into the caller's stream is all or nothing (when str() raises the stream is "
+                  "unchanged, a pending width still pending) and otherwise inserts the text as ONE item (padded as a whole to the pending "
+                  "width/fill/adjustment, width consumed); the exception message is the concatenation of the rendered arguments (for "
                   "arguments that leave the stream state alone: make_string shares one stream), and the model's decimal printer "
                   "round-trips. The model is tied to /repo by running the extracted model and the real "
                   "nitro::format / nitro::except::raise (ASan/UBSan build of the working tree) on the same exhaustive + random cases and "
@@ -115,7 +119,10 @@ class C08(Check):
             "malformed: random bytes (NUL, high bytes, brace runs); state: every (sticky argument, sensitive argument) pair — sticky = "
             "user type leaving hex/fixed/fill/boolalpha behind or a manipulator, sensitive = long/double/bool/half/string — in one "
             "format via % and via args(...), and across two or three formatter objects used one after the other in one case (seq), "
-            "sticky-sticky-sensitive triples, random sequences of 1..4 formatters; exception messages with 1..8 state-neutral arguments. "
+            "sticky-sticky-sensitive triples, random sequences of 1..4 formatters; stream: operator<< of every format up to length 4 (5 "
+            "thorough) x argument counts 0..k+1 into an ostringstream that already holds text, under eight pending width/fill/adjustment "
+            "settings, followed by a sentinel item, observing the whole stream content (nothing of the formatter after a raise; one padded "
+            "item otherwise), plus random ones; every fmt case also streams into a stream with content and checks the same; exception messages with 1..8 state-neutral arguments. "
             "Each case starts by putting any per-thread formatting state back to the defaults through the public interface (a no-op on "
             "the current header), so a case line is judged and replayed on its own. "
             "A case is non-trivial when the format has at least one placeholder and at least one argument is supplied, or (exception "
@@ -124,7 +131,7 @@ class C08(Check):
                      "occurrence of the two bytes after the previous match), std::stringstream operator<< for std::string (verbatim), "
                      "long, bool, integer-valued double, double z+1/2, four state-changing user types and ten manipulators (small printers for a FRESH "
                      "stream; exercised by the driver only), one fresh stringstream per argument in operator% (tied by the sticky/seq cases), "
-                     "std::string::append, "
+                     "std::string::append, operator<<(ostream&, std::string) padding to the pending width and resetting it (pad/insert_str), "
                      "std::runtime_error storing the message")
 
     def cases(self, tier, rng):
@@ -223,6 +230,24 @@ class C08(Check):
                 yield "fmt " + " ".join(fs[0]), "fmt-sticky-rand"
             else:
                 yield "seq " + " / ".join(" ".join(g) for g in fs), "seq-rand"
+        # (v) operator<< into the caller's stream: all or nothing, and one item with respect to a pending width
+        STREAMS = ["0 20 r", "12 20 r", "12 2a r", "12 2a l", "3 2a l", "1 30 i", "12 2e i", "6 2a r"]
+        for f in strings("{}a", 4 if tier == "quick" else 5):
+            k = f.count("{}")
+            for n in range(0, k + 2):
+                for tup in itertools.product(["", "x", "{}"], repeat=n):
+                    args = [S(x) for x in tup]
+                    for st in STREAMS:
+                        yield "os %s %s" % (st, " ".join([hx(f)] + (chain_pct(args) if rng.random() < 0.5 else chain_args(args)))), "os-exh"
+        R = 1500 if tier == "quick" else 30000
+        for _ in range(R):
+            k = rng.randint(0, 4)
+            f = "{}".join(rng.choice(["", "a", " b ", "{", "}", "{{", "x{}y", "long text "]) for _ in range(k + 1))
+            k = f.count("{}")
+            n = max(0, k + rng.choice([0, 0, 0, 1, -1, 2, -2]))
+            args = [A(rng.choice(SENSITIVE + STICKY[:10])) if rng.random() < 0.6 else S(rng.choice(VALS2)) for _ in range(n)]
+            st = "%d %s %s" % (rng.choice([0, 0, 1, 2, 5, 8, 12, 20, 40]), rng.choice(["20", "2a", "30", "2e"]), rng.choice("lri"))
+            yield "os %s %s" % (st, " ".join([hx(f)] + chain_mixed(args, rng))), "os-rand"
         # exception messages (arguments that leave the stream state alone: see the scope note in FormatModel.v)
         for n in range(1, 4 if tier == "quick" else 5):
             for t in itertools.product(["", "x", "{}", "a b"], repeat=n):
@@ -248,6 +273,8 @@ class C08(Check):
         n = sum(len(a) for _, a in ops)
         if kind in ("fmt", "seq"):
             return "{}" in f and n >= 1
+        if kind == "os":
+            return "{}" in f or n >= 1
         return n >= 2
 
     def signature(self, case, mobs, iobs):
@@ -255,6 +282,12 @@ class C08(Check):
         n = sum(len(a) for _, a in ops)
         flat = [a for _, l in ops for a in l]
         kinds = "".join(sorted(set(a[0] for a in flat)))
+        if kind == "os":
+            k = f.count("{}")
+            ww = case.split()
+            width = int(ww[1])
+            return ("os", iobs.split(" ")[-1], min(k, 4), max(-2, min(2, n - k)), ww[3], ww[2] == "20",
+                    0 if width == 0 else (1 if width <= len(f) else 2), kinds)
         if kind in ("fmt", "seq"):
             k = f.count("{}")
             styles = "".join(sorted(set(c for c, _ in ops)))
@@ -268,6 +301,15 @@ class C08(Check):
 
     def shrink(self, case):
         w = case.split()
+        if w[0] == "os":
+            head = " ".join(w[:4])
+            if w[1] != "0":
+                yield " ".join(["os", "0"] + w[2:])
+                if len(w[1]) > 1:
+                    yield " ".join(["os", w[1][:-1]] + w[2:])
+            for c in self.shrink("fmt " + " ".join(w[4:])):
+                yield head + c[3:]
+            return
         if w[0] in ("fmt", "seq"):
             # seq: drop one whole formatter; a single formatter left becomes a fmt case
             if w[0] == "seq":
